@@ -167,6 +167,45 @@ def rule_N2(ctx: Ctx) -> None:
     t = X.U(ai.node)
     ok = all(k in t for k in ("type_ == bool", "is_abstract(type_)", "type_.__subclasses__()", "itertools.product", "type_origin == tuple", "type_origin is Literal", "UnionType"))
     ctx.judge(ai, ok, {}, "all_instances has the documented case structure (bool / abstract dataclass / concrete dataclass / tuple / union / Literal)")
+    # every recursive call: which collection it ranges over, whether anything filters that collection, what it passes down
+    from sa.callgraph import CallGraph
+
+    reach = [q_ for q_ in CallGraph(ctx.index).closure([ai.qualname]) if q_.startswith("maze_dataset.utils.")]
+    par = {}
+    all_calls = []
+    for q_ in reach:   # all_instances itself and the helpers of its module it delegates to
+        fn_ = ctx.index.functions[q_]
+        par.update(X.parents_map(fn_.node))
+        all_calls += list(X.calls(fn_.node))
+    sites = []
+    for c in all_calls:
+        if dotted_of(c.func) != "all_instances":
+            continue
+        var = c.args[0].id if c.args and isinstance(c.args[0], ast.Name) else None
+        vf = c.args[1] if len(c.args) > 1 else N.kwarg(c, "validation_funcs")
+        it, filters = None, []
+        n_ = c
+        while n_ in par and it is None:
+            n_ = par[n_]
+            if isinstance(n_, (ast.ListComp, ast.GeneratorExp, ast.SetComp)):
+                for g in n_.generators:
+                    if var in {x.id for x in ast.walk(g.target) if isinstance(x, ast.Name)}:
+                        it = g.iter
+                        filters += [X.U(i_) for i_ in g.ifs]
+            elif isinstance(n_, ast.For) and var in {x.id for x in ast.walk(n_.target) if isinstance(x, ast.Name)}:
+                it = n_.iter
+            elif isinstance(n_, ast.If) and var is not None and var in {x.id for x in ast.walk(n_.test) if isinstance(x, ast.Name)}:
+                filters.append(X.U(n_.test))
+        sites.append({"call": X.U(c), "ranges_over": X.U(it) if it is not None else None, "filters": filters,
+                      "passes_validation_funcs": vf is not None and X.U(vf) == "validation_funcs"})
+    for st_ in sites:
+        ctx.judge(ai, not st_["filters"] and st_["passes_validation_funcs"], st_,
+                  "every recursive call of all_instances ranges over the whole collection (all subclasses of an abstract class, all field types, all "
+                  "tuple items, all union members) - nothing filters it - and passes validation_funcs down",
+                  "members of the filtered collection are never enumerated (e.g. everything below an abstract intermediate class), or nested elements "
+                  "escape validation: the enumeration is not exactly the valid configurations")
+    ctx.judge(ai, len(sites) >= 4 and any("__subclasses__" in (s_["ranges_over"] or "") for s_ in sites), {"recursive_call_sites": len(sites)},
+              "all_instances recurses into subclasses, field types, tuple items and union members (4 recursive call sites)")
     av = ctx.index.func("maze_dataset.utils._apply_validation_func")
     _judge_apply_validation(ctx, av)
     # the enumeration is recomputed on every call: validity is not a pure function of (type, validation map) - `mark_as_unsupported`
@@ -429,3 +468,8 @@ from sa import exits as _exits_ms  # noqa: E402
 
 RULES.append(Rule("C15.MS", _exits_ms.make_state_rule("C15", "C15.MS", _exits_ms.SCOPES.get("C15", [])), floor=1,
                   doc="no hidden module-level state on the anchored path: results do not depend on the history of the process (E17)"))
+
+from sa import exits as _exits_nw  # noqa: E402
+
+RULES.append(Rule("C15.NW", _exits_nw.make_narrowing_rule("C15", "C15.NW", _exits_nw.SCOPES.get("C15", [])), floor=1,
+                  doc="no new narrowing cast (8/16-bit element types) on the anchored path: coordinates, lengths and indices do not wrap (E18)"))
